@@ -200,6 +200,35 @@ pub fn minverse<F: Field, const N: usize>(a: M<F, N>) -> Option<M<F, N>> {
     Some(std::array::from_fn(|c| std::array::from_fn(|r| inv[r][c])))
 }
 
+/// minor of `a` with column `c` and row `r` removed, as an (N-1)x(N-1) determinant
+/// (Leibniz on index lists; N <= 4)
+pub fn mcofactor<F: Field, const N: usize>(a: M<F, N>, c: usize, r: usize) -> F {
+    let cols: Vec<usize> = (0..N).filter(|&x| x != c).collect();
+    let rows: Vec<usize> = (0..N).filter(|&x| x != r).collect();
+    let n = N - 1;
+    let mut s = F::zero();
+    for (sig, odd) in perms(n) {
+        let mut t = F::one();
+        for i in 0..n {
+            t = t * a[cols[i]][rows[sig[i]]];
+        }
+        s = if odd { s - t } else { s + t };
+    }
+    if (c + r) % 2 == 1 {
+        -s
+    } else {
+        s
+    }
+}
+/// Cramer's rule: inverse[c][r] = cofactor(r, c) / det (the textbook adjugate formula)
+pub fn minverse_adj<F: Field, const N: usize>(a: M<F, N>) -> Option<M<F, N>> {
+    let det = mdet(a);
+    if det.is_zero() {
+        return None;
+    }
+    Some(std::array::from_fn(|c| std::array::from_fn(|r| mcofactor(a, r, c) / det)))
+}
+
 pub fn embed<F: Field, const A: usize, const B: usize>(m: M<F, A>) -> M<F, B> {
     let mut out = mident::<F, B>();
     for c in 0..A {
